@@ -15,6 +15,7 @@ The oracle shares no code with falcon: classification of a body is done with the
 module over a strict UTF-8 decode, forms are decoded with urllib.parse.parse_qs, documents are
 compared with a type-strict iterative comparison.
 """
+import copy
 import json
 import urllib.parse
 
@@ -400,6 +401,20 @@ def req_headers(ct, body, with_cl):
 # ------------------------------------------------------------------ round trip
 
 
+def _consume(media):
+    """What a responder may do with ITS parsed document: modify it in place."""
+    if isinstance(media, dict):
+        for v in media.values():
+            if isinstance(v, list):
+                v.append('vf-used')
+        media['vf-used'] = True
+        for k in list(media)[:1]:
+            if k != 'vf-used':
+                media.pop(k)
+    elif isinstance(media, list):
+        media.append('vf-used')
+
+
 class RoundTrip(Suite):
     """resp.media = doc is rendered by a GET responder of a real falcon.App and falcon.asgi.App
     (default handlers; application/vnd.x+json registered explicitly); every body obtained is decoded
@@ -439,7 +454,8 @@ class RoundTrip(Suite):
             def on_post(self, req, resp):
                 try:
                     first = req.get_media()
-                    box['got'] = (first, req.get_media() is first)
+                    box['got'] = (copy.deepcopy(first), req.get_media() is first)
+                    _consume(first)
                 except Exception as e:  # noqa
                     box['err'] = e
                 resp.text = 'ok'
@@ -452,7 +468,8 @@ class RoundTrip(Suite):
             async def on_post(self, req, resp):
                 try:
                     first = await req.get_media()
-                    box['got'] = (first, (await req.get_media()) is first)
+                    box['got'] = (copy.deepcopy(first), (await req.get_media()) is first)
+                    _consume(first)
                 except Exception as e:  # noqa
                     box['err'] = e
                 resp.text = 'ok'
@@ -491,8 +508,9 @@ class RoundTrip(Suite):
                                 '%s: resp.media=%s as %s rendered %s which decodes to %s'
                                 % (origin, brief(doc), ctype, brief(body), brief(ref)))
 
-        # ---- feed back
-        for origin, body in bodies:
+        # ---- feed back, twice: the responder uses up the document it parsed (pops / appends), so a second
+        # request with the same bytes must again get a document equal to the one that was sent
+        for origin, body in bodies + bodies:
             box.clear()
             res = W.call(wapp, W.build_environ('POST', '/m', headers=req_headers(ct, body, True), body=body))
             self._check_back('wsgi', origin, res, box, case, doc, body)
@@ -870,6 +888,116 @@ FIXED_HISTORIES = [
 FIXED_CHUNKS = [[], [1], [2, 3], [7, 0]]
 
 
+class _HandlerBug(Exception):
+    """What a faulty media handler raises (not an HTTPError)."""
+
+
+class FailingHandler(BaseHandler):
+    """Reads the whole body, then fails with a non-HTTP exception (a bug in an application's own handler)."""
+
+    def __init__(self, counter):
+        self.counter = counter
+
+    def serialize(self, media, content_type):
+        return b'null'
+
+    def deserialize(self, stream, content_type, content_length):
+        self.counter.enter()
+        try:
+            stream.read()
+            raise _HandlerBug('cannot decode')
+        finally:
+            self.counter.leave()
+
+    async def deserialize_async(self, stream, content_type, content_length):
+        self.counter.enter()
+        try:
+            await stream.read()
+            raise _HandlerBug('cannot decode')
+        finally:
+            self.counter.leave()
+
+
+class HandlerFailure(Suite):
+    """Parse-at-most-once when parsing FAILS with something that is not an HTTP error: (a) a custom handler that reads
+    the body and raises its own exception, on WSGI and ASGI; (b) on WSGI, a wsgi.input whose first read() raises OSError
+    (a transient socket failure) under the stock JSON handler.  The responder catches every error and goes on through a
+    history of 2-4 get_media() / get_media(default_when_empty=x) / .media calls: every call must raise the SAME exception
+    instance as the first, the handler must have been entered once and the stream must not be touched again."""
+
+    name = 'handler_failure'
+    exhaustive = True
+    budget = {'quick': 1, 'thorough': 1}
+
+    def cases(self, tier):
+        hists = [h for h in FIXED_HISTORIES if len(h) >= 2] + [[['get'], ['get']], [['media'], ['media'], ['get']]]
+        for body in (b'{"a": 1}', b'[1, 2, 3]', b'x'):
+            for h in hists:
+                yield {'stack': 'wsgi', 'how': 'custom', 'body': body, 'ops': h}
+                yield {'stack': 'asgi', 'how': 'custom', 'body': body, 'ops': h}
+                yield {'stack': 'wsgi', 'how': 'input', 'body': body, 'ops': h}
+
+    def run(self, case):
+        counter = Counter()
+        body = case['body']
+        ops = case['ops']
+        box = {}
+        ctx = '%s failure=%s body=%r ops=%r' % (case['stack'], case['how'], body, ops)
+        headers = [('Content-Type', 'application/json'), ('Content-Length', str(len(body)))]
+        if case['stack'] == 'wsgi':
+            inp = W.Input(body, fail_at=[0] if case['how'] == 'input' else None)
+
+            def probe():
+                return (counter.entries, len(inp.calls), inp.pos)
+
+            class Res(object):
+                def on_post(self, req, resp):
+                    box['outcomes'] = drive(interpret(ops, SyncAcc(req), probe))
+                    resp.text = 'ok'
+
+            app = falcon.App()
+            if case['how'] == 'custom':
+                app.req_options.media_handlers['application/json'] = FailingHandler(counter)
+            else:
+                app.req_options.media_handlers['application/json'] = instrument_stock(falcon.media.JSONHandler(), counter)
+            app.add_route('/m', Res())
+            res = W.call(app, W.build_environ('POST', '/m', headers=headers, body=body, input_obj=inp))
+            want = _HandlerBug if case['how'] == 'custom' else W.TransientInputError
+        else:
+            def probe():
+                return (counter.entries, counting.calls, counting.bytes)
+
+            class Res(object):
+                async def on_post(self, req, resp):
+                    box['outcomes'] = await interpret(ops, AsyncAcc(req), probe)
+                    resp.text = 'ok'
+
+            app = falcon.asgi.App()
+            app.req_options.media_handlers['application/json'] = FailingHandler(counter)
+            app.add_route('/m', Res())
+            counting = CountingReceive(app)
+            res = A.call(counting, A.build_scope('POST', '/m', headers=headers), make_events(body, [3], False))
+            want = _HandlerBug
+        if res.error is not None or 'outcomes' not in box:
+            raise Violation('responder_not_completed', '%s: escaped %r' % (ctx, res.error))
+        outcomes = box['outcomes']
+        first = outcomes[0]
+        for idx, (op, _d, how, val, p) in enumerate(outcomes):
+            call = 'call #%d %r' % (idx + 1, op)
+            if how != 'exc' or not isinstance(val, want):
+                raise Violation('failure_forgotten', '%s: %s %s %r; the first call failed with %r, which every later call must raise again'
+                                % (ctx, call, 'returned' if how == 'ret' else 'raised', val, first[3]))
+            if val is not first[3]:
+                raise Violation('error_not_cached', '%s: %s raised a different exception instance (%r) than the first call (%r)'
+                                % (ctx, call, val, first[3]))
+            if p != first[4]:
+                raise Violation('parsed_again', '%s: after %s (handler entries, stream reads, position) went %r -> %r'
+                                % (ctx, call, first[4], p))
+        if first[4][0] != 1:
+            raise Violation('deserialize_entries', '%s: handler entered %d times by the first call' % (ctx, first[4][0]))
+        return Info(True, ['stack:' + case['stack'], 'failure:' + case['how'], 'ops:%d' % len(ops)])
+
+
 class Truncations(Suite):
     """Exhaustive: every byte prefix (0..len) of 13 small JSON documents (objects, arrays, scalars,
     escapes, raw multi-byte UTF-8, surrounding whitespace) x {WSGI, ASGI} x {stock, delegating}
@@ -1173,5 +1301,5 @@ class ResponseHistory(Suite):
         return Info(nt, [case['stack']] + sorted('op:' + k for k in kinds) + (['render_then_mutate_then_reassign'] if nt else []))
 
 
-SUITES = [RoundTrip(), History(), Truncations(), ResponseHistory()]
+SUITES = [RoundTrip(), History(), HandlerFailure(), Truncations(), ResponseHistory()]
 KNOWN = {}
